@@ -1480,4 +1480,180 @@ theorem dedupMarked_spec (g0 : List Int) :
       rw [hget b hbl, getD0_eq ha] at hbe
       rw [← hbe]; exact List.getElem_mem _
 
+
+/-- `x` is the global id of some valid slot -/
+def NodeIds.liveSet (s : NodeIds) (x : Int) : Prop := 0 ≤ x ∧ ∃ v, s.global.getD v (-1) = x
+
+theorem addCore_eq {s : NodeIds} {g : Int} (hg : 0 ≤ g) :
+    s.addCore g = (.ok, next2index s.grow.blank,
+      { s.grow with
+        blank := s.grow.global.getD (next2index s.grow.blank) (-1),
+        global := s.grow.global.set (next2index s.grow.blank) g,
+        part := s.grow.part.set (next2index s.grow.blank) 0,
+        n := s.n + 1 }) := by
+  simp [addCore, Int.not_lt.2 hg]
+
+/-- `ref_node_add_core` of a global that is not live keeps `WeakInv`, adds exactly that global, and moves
+    no live slot -/
+theorem addCore_Weak {s : NodeIds} (h : WeakInv s) {g : Int} (hg : 0 ≤ g) (hfresh : ¬ s.liveSet g) :
+    (s.addCore g).1 = .ok ∧ WeakInv (s.addCore g).2.2 ∧
+      (∀ x, (s.addCore g).2.2.liveSet x ↔ x = g ∨ s.liveSet x) ∧
+      (∀ v, 0 ≤ s.global.getD v (-1) → (s.addCore g).2.2.global.getD v (-1) = s.global.getD v (-1)) ∧
+      (s.addCore g).2.2.unusedStk = s.unusedStk ∧ (s.addCore g).2.2.newN = s.newN ∧
+      (s.addCore g).2.2.oldN = s.oldN := by
+  rw [addCore_eq hg]
+  obtain ⟨hft, hbt⟩ := grow_FreeInv h.free
+  obtain ⟨hpop, hnode, hneg⟩ := pop_FreeInv hft hbt hg (s.grow.part.set (next2index s.grow.blank) 0)
+  generalize next2index s.grow.blank = node at *
+  have hnlen : node < s.grow.global.length := hnode
+  have hnotlive : ∀ v, s.global.getD v (-1) ≠ g := fun v e => hfresh ⟨hg, v, e⟩
+  refine ⟨rfl, ⟨hpop.congr rfl rfl (by simp), ?_⟩, ?_, ?_, by simp, by simp, by simp⟩
+  · intro a b ha he
+    simp only at ha he
+    by_cases han : a = node <;> by_cases hbn : b = node
+    · rw [han, hbn]
+    · subst han
+      rw [getD_set_self hnlen, getD_set_ne hbn] at he
+      exact absurd ((grow_getD_eq_iff s hg).1 he.symm) (hnotlive b)
+    · subst hbn
+      rw [getD_set_self hnlen, getD_set_ne han] at he
+      exact absurd ((grow_getD_eq_iff s hg).1 he) (hnotlive a)
+    · rw [getD_set_ne han] at ha he
+      rw [getD_set_ne hbn] at he
+      have h1 := (grow_getD_eq_iff s ha).1 rfl
+      have h2 := (grow_getD_eq_iff s ha).1 he.symm
+      exact h.distinct a b (by rw [h1]; exact ha) (by rw [h1, h2])
+  · intro x
+    simp only [NodeIds.liveSet]
+    constructor
+    · rintro ⟨h0, v, hv⟩
+      by_cases hvn : v = node
+      · subst hvn; rw [getD_set_self hnlen] at hv; exact Or.inl hv.symm
+      · rw [getD_set_ne hvn] at hv
+        exact Or.inr ⟨h0, v, (grow_getD_eq_iff s h0).1 hv⟩
+    · rintro (rfl | ⟨h0, v, hv⟩)
+      · exact ⟨hg, node, getD_set_self hnlen⟩
+      · have hv' := (grow_getD_eq_iff s h0).2 hv
+        have hvn : v ≠ node := by intro e; rw [e] at hv'; omega
+        exact ⟨h0, v, by rw [getD_set_ne hvn]; exact hv'⟩
+  · intro v hv
+    simp only
+    have hlt : v < s.max := lt_length_of_getD_nonneg hv
+    have hvn : v ≠ node := by
+      intro e; rw [← e, grow_getD_old s hlt] at hneg; omega
+    rw [getD_set_ne hvn, grow_getD_old s hlt]
+
+theorem addCoreAll_spec : ∀ (gs : List Int) (s : NodeIds), WeakInv s → (∀ x ∈ gs, -1 ≤ x) →
+    gs.Pairwise (fun a b => a ≠ -1 → a ≠ b) → (∀ x ∈ gs, x ≠ -1 → ¬ s.liveSet x) →
+    (addCoreAll s gs).1 = .ok ∧ WeakInv (addCoreAll s gs).2 ∧
+      (∀ x, (addCoreAll s gs).2.liveSet x ↔ s.liveSet x ∨ (x ∈ gs ∧ x ≠ -1)) ∧
+      (∀ v, 0 ≤ s.global.getD v (-1) → (addCoreAll s gs).2.global.getD v (-1) = s.global.getD v (-1)) ∧
+      (addCoreAll s gs).2.unusedStk = s.unusedStk ∧ (addCoreAll s gs).2.newN = s.newN ∧
+      (addCoreAll s gs).2.oldN = s.oldN
+  | [], s, h, _, _, _ => by simp [addCoreAll, h]
+  | g :: rest, s, h, hge, hpw, hfresh => by
+    obtain ⟨hp1, hp2⟩ := List.pairwise_cons.1 hpw
+    unfold addCoreAll
+    by_cases hg1 : g = -1
+    · simp only [hg1, if_true]
+      obtain ⟨a, b, c, d, e⟩ := addCoreAll_spec rest s h (fun x hx => hge x (by simp [hx])) hp2
+        (fun x hx => hfresh x (by simp [hx]))
+      refine ⟨a, b, ?_, d, e⟩
+      intro x; rw [c x]
+      constructor
+      · rintro (h | ⟨h1, h2⟩)
+        · exact Or.inl h
+        · exact Or.inr ⟨by simp [h1], h2⟩
+      · rintro (h | ⟨h1, h2⟩)
+        · exact Or.inl h
+        · rcases List.mem_cons.1 h1 with e | h1
+          · exact absurd e h2
+          · exact Or.inr ⟨h1, h2⟩
+    · simp only [hg1, if_false]
+      have hg0 : 0 ≤ g := by have := hge g (by simp); omega
+      obtain ⟨hok, hw, hlive, hframe, hu, hn, ho⟩ := addCore_Weak h hg0 (hfresh g (by simp) hg1)
+      simp only [hok, if_true]
+      obtain ⟨a, b, c, d, e1, e2, e3⟩ := addCoreAll_spec rest (s.addCore g).2.2 hw
+        (fun x hx => hge x (by simp [hx])) hp2
+        (by
+          intro x hx hx1 hl
+          rcases (hlive x).1 hl with e | hl
+          · exact hp1 x hx hg1 e.symm
+          · exact hfresh x (by simp [hx]) hx1 hl)
+      refine ⟨a, b, ?_, ?_, by rw [e1, hu], by rw [e2, hn], by rw [e3, ho]⟩
+      · intro x; rw [c x, hlive x]
+        constructor
+        · rintro ((h | h) | ⟨h1, h2⟩)
+          · exact Or.inr ⟨by simp [h], by rw [h]; exact hg1⟩
+          · exact Or.inl h
+          · exact Or.inr ⟨by simp [h1], h2⟩
+        · rintro (h | ⟨h1, h2⟩)
+          · exact Or.inl (Or.inr h)
+          · rcases List.mem_cons.1 h1 with e | h1
+            · exact Or.inl (Or.inl e)
+            · exact Or.inr ⟨h1, h2⟩
+      · intro v hv
+        rw [d v (by rw [hframe v hv]; exact hv), hframe v hv]
+
+theorem liveSet_iff_liveSlot {s : NodeIds} (h : NodeInv s) {x : Int} :
+    s.liveSet x ↔ s.liveSlot x ≠ none := by
+  rw [Ne, liveSlot_eq_none_iff h]
+  simp only [NodeIds.liveSet]
+  constructor
+  · rintro ⟨h0, v, hv⟩ hall; exact hall v ⟨h0, hv⟩
+  · intro hn
+    refine Classical.byContradiction fun hc => hn ?_
+    intro v hv; exact hc ⟨hv.1, v, hv.2⟩
+
+/-- `ref_node_add_many` on a list without entries below `REF_EMPTY`: succeeds, re-establishes `NodeInv`,
+    the live globals become `old ∪ {x ∈ list | 0 ≤ x}`, and no previously live slot moves -/
+theorem addMany_spec {s : NodeIds} (h : NodeInv s) {orig : List Int} (hge : ∀ x ∈ orig, -1 ≤ x) :
+    (s.addMany orig).1 = .ok ∧ NodeInv (s.addMany orig).2 ∧
+      (∀ x, (s.addMany orig).2.liveSet x ↔ s.liveSet x ∨ (x ∈ orig ∧ 0 ≤ x)) ∧
+      (∀ v, 0 ≤ s.global.getD v (-1) → (s.addMany orig).2.global.getD v (-1) = s.global.getD v (-1)) ∧
+      (s.addMany orig).2.unusedStk = s.unusedStk ∧ (s.addMany orig).2.newN = s.newN ∧
+      (s.addMany orig).2.oldN = s.oldN := by
+  have hmem0 : ∀ x, x ∈ orig.filter (fun x => (searchGlob s.keys x).isNone) ↔ x ∈ orig ∧ ¬ s.liveSet x := by
+    intro x
+    rw [List.mem_filter, liveSet_iff_liveSlot h, Option.isNone_iff_eq_none, search_none_iff h]
+    simp
+  obtain ⟨hA, hB, hC⟩ := dedupMarked_spec (orig.filter (fun x => (searchGlob s.keys x).isNone))
+  have hunf : s.addMany orig =
+      (if (addCoreAll s (dedupMarked (orig.filter (fun x => (searchGlob s.keys x).isNone)))).1 = .ok then
+        (.ok, (addCoreAll s (dedupMarked (orig.filter (fun x => (searchGlob s.keys x).isNone)))).2.rebuild)
+      else addCoreAll s (dedupMarked (orig.filter (fun x => (searchGlob s.keys x).isNone)))) := rfl
+  generalize dedupMarked (orig.filter (fun x => (searchGlob s.keys x).isNone)) = g1 at *
+  obtain ⟨hok, hw, hlive, hframe, hu, hn, ho⟩ := addCoreAll_spec g1 s h.weak
+    (by
+      intro x hx
+      rcases hA x hx with e | hx0
+      · omega
+      · exact hge x ((hmem0 x).1 hx0).1)
+    hB
+    (by
+      intro x hx hx1
+      rcases hA x hx with e | hx0
+      · exact absurd e hx1
+      · exact ((hmem0 x).1 hx0).2)
+  rw [hunf]
+  simp only [hok, if_true]
+  refine ⟨trivial, rebuild_NodeInv hw, ?_, hframe, hu, hn, ho⟩
+  intro x
+  show (0 ≤ x ∧ ∃ v, (addCoreAll s g1).2.global.getD v (-1) = x) ↔ _
+  rw [show (0 ≤ x ∧ ∃ v, (addCoreAll s g1).2.global.getD v (-1) = x) ↔ (addCoreAll s g1).2.liveSet x from Iff.rfl,
+    hlive x]
+  constructor
+  · rintro (hl | ⟨h1, h2⟩)
+    · exact Or.inl hl
+    · rcases hA x h1 with e | hx0
+      · exact absurd e h2
+      · have := (hmem0 x).1 hx0
+        have := hge x this.1
+        exact Or.inr ⟨((hmem0 x).1 hx0).1, by omega⟩
+  · rintro (hl | ⟨h1, h2⟩)
+    · exact Or.inl hl
+    · by_cases hl : s.liveSet x
+      · exact Or.inl hl
+      · exact Or.inr ⟨hC x ((hmem0 x).2 ⟨h1, hl⟩), by omega⟩
+
 end Refine.Model.NodeIds
